@@ -469,7 +469,10 @@ class Ctx:
             "wall_s": round(time.time() - self.t0, 2),
             "violations": self.nviol,
         }
-        with open(os.path.join(EVIDENCE, self.prop + ".json"), "w") as f:
+        # a --replay run re-executes one stored case: it must not replace the evidence of the
+        # last full run (and would not be a valid record of the claimed level)
+        name = self.prop + (".replay.json" if self.replay else ".json")
+        with open(os.path.join(EVIDENCE, name), "w") as f:
             json.dump(ev, f, indent=1, default=str)
         for key, what in self.known_hits:
             print("KNOWN-FINDING: property=%s %s — %s" % (self.prop, key, what))
